@@ -159,6 +159,26 @@ def run(ctx):
                 nt += 1
             except Exception:
                 pass
+            # ---- whole-byte rotations of the same group by different amounts, parse and build (nothing learnt from one call serves another)
+            for g, amounts in ((3, (8, 16)), (4, (8, 24)), (5, (-16, 8))):
+                rp = [A.FixedSized(2 * g, A.ProcessRotateLeft(a, g, A.GreedyBytes)) for a in amounts]
+                rc = [campaign.realizable(p) for p in rp]
+                data = bytes(range(1, 2 * g + 1))
+                first = [camp.parse(rp[0], rc[0], data, 0, {})[0], camp.build(rp[0], rc[0], data, b"", {})[0]]
+                for q in (1, 0):
+                    i1, _ = camp.parse(rp[q], rc[q], data, 0, {})
+                    i2, _ = camp.build(rp[q], rc[q], data, b"", {})
+                    if q == 0:
+                        camp.sh.session("C17.pure", [first[0], i1]); camp.sh.session("C17.pure", [first[1], i2])
+                nt += 1
+            # ---- a build that fails after its payload was partly written, between two identical ones (length-prefixed regions keep no buffer)
+            pp = A.Prefixed(A.Alias("Byte"), A.Struct(A.Renamed("a", A.Alias("Byte")), A.Renamed("b", A.Alias("Int16ub"))))
+            pc = campaign.realizable(pp)
+            for good, bad in (({"a": 1, "b": 0x0203}, {"a": 0xEE}), ({"a": 1, "b": 2}, {"a": 5, "b": 70000})):
+                i1, _ = camp.build(pp, pc, good, b"", {})
+                i2, _ = camp.build(pp, pc, bad, b"", {})
+                i3, _ = camp.build(pp, pc, good, b"", {})
+                camp.sh.session("C17.pure", [i1, i3])
             # ---- signed and unsigned bit fields of the same narrow width: what one accepted says nothing about the other
             for w in (3, 4, 7):
                 sp = A.BitStruct(A.Renamed("a", A.BitsInteger(w, signed=True)), A.Renamed("b", A.BitsInteger(8 - w)))
